@@ -1,4 +1,5 @@
 import Ntrip.Proofs.FieldsRoundTrip
+import Ntrip.Guards.Base
 /-!
 # C05 — base-position messages 1005/1006 decode exactly (and display to 0.1 mm)
 
@@ -122,5 +123,8 @@ example : WF .t1005 sample := by
 
 example : decodeBase .t1005 (frameOf [0xD3, 0, 19] .t1005 sample [0xAB] [1, 2, 3]) = .ok sample := by
   decide +kernel
+
+/-- Tie T1: guards and loop headers of the modelled code, regenerated from the source. -/
+theorem tie_guards_base : type_of% Ntrip.Guards.base := Ntrip.Guards.base
 
 end Ntrip.C05
